@@ -41,4 +41,24 @@ META = {
     },
 }
 
+META["C02"] = {
+    "text": "Soundness is an invariant of the specification (accepted => the claim is true) and is model-checked exhaustively on an 8-bit "
+            "universe against an adversary that alters every field, drops or replaces every audit-path entry with every digest it knows, "
+            "and recombines answers; the same invariant fails for the verifier of the pinned commit (skipped history check), which is "
+            "how the defect fixed by 2cea738 was found. Conformance: thousands of altered/forged wire answers derived from real "
+            "answers (digests sharing 0..255-bit prefixes with inserted ones, absence claims, actual>query, recombination, wrong "
+            "snapshots) go through the real JSON decoder and real DigestVerify; TLC decides from the log whether each accepted claim is true.",
+    "note": _TREES_NOTE + " Adversary knowledge in MC is bounded (two edits); in conformance it is the mutation grammar of DESIGN.md §5 C02.",
+    "technique": "TLA+ adversary model checked with TLC + trace validation of real verifier outcomes on mutated answers",
+}
+META["C12"] = {
+    "text": "The specification's verifiers are total functions over arbitrary partial audit paths (missing entry => reject), model-checked "
+            "over every dropped/replaced entry. The real decoder + verifier are run on every mutation of the grammar (missing, extra, "
+            "renamed, malformed keys, wrong digest lengths, version triples up to 2^64-1, >256 hyper entries, nil parts) inside a guarded "
+            "goroutine with a deadline; TLC validates each outcome: a panic or timeout is a violation, and accept/reject is compared "
+            "with the specification verifier.",
+    "note": _TREES_NOTE + " Arbitrary byte strings are covered only as structured mutations of genuine answers (not model checking of all byte strings).",
+    "technique": "TLA+ total verifier specification + TLC trace validation of guarded real-verifier runs on structured mutations",
+}
+
 NOT_APPLICABLE = {}
